@@ -21,7 +21,7 @@ from vlib.core import Inconclusive, jhash, rng_for
 ID = "C10"
 LEVEL = "exploration"
 RULE = (
-    "case = (shape: 1-3 sessions of 1-3 batches, all 39 shapes; loss sequence: improving / non-improving / mixed, positive; "
+    "case = (shape: 1-3 sessions of 1-3 batches, all 39 shapes; loss sequence: improving / non-improving / mixed / reaching exactly 0.0; "
     "agent: constant, cyclic or reward-adaptive script, or the real MABEpsilonGreedy; 3 samplers + optional supplied Halton). "
     "Controlled mode enumerates every schedule of the calibration thread and the agent threads at the synchronisation points "
     "(queue put/get/empty/qsize, session-flag read/write, thread start/join/exit) with at most c preemptions (quick c=2, "
@@ -36,7 +36,7 @@ RULE = (
 ASSUMPTIONS = [
     "the shim owns queue put/get/empty/qsize, the session flag and thread start/join; a thread that blocks on anything else ends the run as inconclusive",
     "the calibration side is driven through the scheduler API exactly as Calibrator.calibrate() does (session(), get_next_sampler(), update())",
-    "positive losses (the reward is undefined at a zero reference)",
+    "non-negative losses; once the best loss is exactly 0.0 no later batch can improve it, so the reward rule never divides by zero",
 ]
 REQUIRED_COUNTERS = {"schedules": 2000, "preempted_multi_session": 500, "cases": 30, "free_runs": 60, "free_line_events": 5000}
 SHARDS = {"quick": 16, "thorough": 16}
@@ -48,18 +48,18 @@ SHAPES = [s for n in (1, 2, 3) for s in itertools.product((1, 2, 3), repeat=n)] 
 def gen_cases(tier, seed):
     cases = []
     agents = ["cyclic", "adaptive", "egreedy", "constant"]
-    losses = ["improving", "flat", "mixed"]
+    losses = ["improving", "flat", "mixed", "hits_zero"]
     k = 0
     for sh in SHAPES:
         reps = 1 if tier == "quick" else 3
         for r in range(reps):
-            cases.append({"mode": "controlled", "shape": list(sh), "agent": agents[(k + r) % 4], "loss": losses[(k // 2 + r) % 3],
+            cases.append({"mode": "controlled", "shape": list(sh), "agent": agents[(k + r) % 4], "loss": losses[(k // 2 + r) % 4],
                           "halton_supplied": bool((k + r) % 3 == 0), "seed": seed, "k": k * 3 + r})
         k += 1
     nfree = 32 if tier == "quick" else 320
     for i in range(nfree):
         sh = SHAPES[(i * 7) % len(SHAPES)]
-        cases.append({"mode": "free", "shape": list(sh), "agent": agents[i % 4], "loss": losses[i % 3], "halton_supplied": bool(i % 3 == 0),
+        cases.append({"mode": "free", "shape": list(sh), "agent": agents[i % 4], "loss": losses[i % 4], "halton_supplied": bool(i % 3 == 0),
                       "seed": seed, "k": 1000 + i})
     return cases
 
@@ -70,6 +70,11 @@ def loss_sequence(kind, n, rng):
         return list(np.round(10.0 * 0.8 ** np.arange(1, n + 1), 6))
     if kind == "flat":
         return [float(np.round(5.0 + rng.random(), 6)) for _ in range(n)] if n else []
+    if kind == "hits_zero":  # a perfect fit somewhere: the best loss becomes exactly 0.0 and stays there
+        seq = [float(np.round(10.0 ** rng.uniform(-1, 1), 6)) for _ in range(n)]
+        if n:
+            seq[int(rng.integers(0, n))] = 0.0
+        return seq
     return [float(np.round(10.0 ** rng.uniform(-1, 1), 6)) for _ in range(n)]
 
 
@@ -252,7 +257,7 @@ def judge(desc, log, losses, n_samplers_with_bootstrap, halton_index):
             if a is None:
                 ref_best = new
                 continue
-            r = (ref_best - new) / ref_best if new < ref_best else 0.0
+            r = (ref_best - new) / ref_best if new < ref_best else 0.0  # new < ref_best implies ref_best > 0: losses are >= 0
             ref_best = new
             exp_learn.append((a, r))
         got = p["learn"]
